@@ -40,6 +40,63 @@ def focus_items(types):
     return out
 
 
+# ---- annotations as DECLARED (from the AST of the annotated catalogue, independent of the IR) -------------------
+def _declared():
+    from stone.frontend import ast as A
+    from harness import fe_common as fe
+    specs = fixtures.read_specs('annotated')
+    tree = fe.parse(specs[0][1], specs[0][0])
+    defs = {n.name: n for n in tree if isinstance(n, A.AstAnnotationDef)}
+    table = {}
+    for n in tree:
+        if isinstance(n, (A.AstStructDef, A.AstUnionDef)):
+            for f in n.fields:
+                omitted, redactor = None, None
+                for ref in getattr(f, 'annotations', None) or []:
+                    d = defs[ref.annotation]
+                    if d.annotation_type == 'Omitted':
+                        omitted = d.args[0]
+                    elif d.annotation_type in ('RedactedBlot', 'RedactedHash'):
+                        redactor = (d.annotation_type, d.args[0] if d.args else None)
+                table[(n.name, f.name)] = (omitted, redactor)
+        elif isinstance(n, A.AstAlias):
+            redactor = None
+            for ref in n.annotations or []:
+                d = defs[ref.annotation]
+                if d.annotation_type in ('RedactedBlot', 'RedactedHash'):
+                    redactor = (d.annotation_type, d.args[0] if d.args else None)
+            table[('alias', n.name)] = (None, redactor)
+    return table
+
+
+DECLARED = _declared()
+DECLARED_KEYS = sorted(DECLARED)
+
+
+@hx.harness(props=['C13'], targets=['harness.c13_privacy:_ir_annotation'],
+            bound='every field / tag / alias of the annotated catalogue (finite, enumerated by the solver): the annotation '
+                  'the API description carries equals the one declared in the spec text (read from the AST)',
+            budget=(60, 120))
+def annotation_attached(k: int) -> bool:
+    """
+    pre: 0 <= k < len(DECLARED_KEYS)
+    post: _
+    """
+    owner, name = DECLARED_KEYS[k]
+    return hx.ok(_ir_annotation(owner, name) == DECLARED[(owner, name)])
+
+
+def _ir_annotation(owner, name):
+    if owner == 'alias':
+        obj = NSN.alias_by_name[name]
+        omitted = None
+    else:
+        obj = [f for f in NSN.data_type_by_name[owner].fields if f.name == name][0]
+        omitted = obj.omitted_caller
+    red = obj.redactor
+    return (omitted, (type(red).__name__, red.regex) if red is not None else None)
+
+
 def lookup(item):
     name = item.split('@')[0].split('#')[0]
     dt = NSN.data_type_by_name[name]
@@ -128,6 +185,8 @@ def omit_encode(i: I8, s: S4, b: B16, p_internal: bool, p_alpha: bool) -> bool:
     except bv.ValidationError:
         # refusing to encode a value whose chosen tag the caller may not see leaks nothing
         return hx.ok(_hidden_tag(sh, held))
+    if _hidden_tag(sh, held):
+        return hx.ok(False)            # a tag omitted for this caller was encoded
     return hx.ok(_plain(j) == wire.ref_encode(dt, sh, perms=held))
 
 
